@@ -6,6 +6,7 @@ CONSTANTS
   NScopes = 1
   MaxOps = 6
   BoundaryRule = "le"
+  MaxBatch = 1
   Core = TRUE
 INIT Init
 NEXT Next
